@@ -154,6 +154,17 @@ def key_independence_probe(ck, quick):
                                            case={"num_envs": N, "num_steps": T, "seed": ck.seed * 100 + rep}))
 
 
+SPY: list = []
+
+
+class SpyPPO(PPO):
+    """PPO whose train() records the rollout buffer it is handed (iteration() is run eagerly in the probe below)"""
+
+    def train(self, policy, opt_state, buffer, *, key):
+        SPY.append(buffer)
+        return super().train(policy, opt_state, buffer, key=key)
+
+
 def iteration_vs_singles(ck, rng, n):
     """The REAL iteration() of an on-policy learner (its own vmap over environments) vs single-environment collections, on key-free
     MDPs whose table leaves have a leading dimension equal to num_envs (so that slicing an environment leaf across the parallel
@@ -169,20 +180,41 @@ def iteration_vs_singles(ck, rng, n):
         pspec = random_ptab(rng, spec, spec["asp"], int(spec["osp"][1]), det=True)
         policy = TabPolicy(pspec, env.action_space, env.observation_space)
         T = 5
-        algo = PPO(num_envs=N, num_steps=T, gamma=0.5, gae_lambda=0.5, num_epochs=1, num_batches=1)
+        algo = SpyPPO(num_envs=N, num_steps=T, gamma=0.5, gae_lambda=0.5, num_epochs=1, num_batches=1)
         cb = CallbackList(callbacks=[])
         ck.current_case = {"spec": spec, "pspec": pspec, "N": N, "T": T, "what": "real PPO.iteration vs single-environment collections (key-free MDP, num_states == num_envs)"}
         st = algo.reset(env, policy, key=jr.key(idx), callback=cb)
-        st2 = eqx.filter_jit(lambda s, k: algo.iteration(s, key=k, callback=cb))(st, jr.key(100 + idx))
+        # the parallel environments are put OUT OF PHASE (different TimeLimit counters), so that on most steps one environment is
+        # truncated / terminated while its neighbours are not
+        st = eqx.tree_at(lambda s: s.step_state.env_state.step_count, st, jnp.arange(N, dtype=st.step_state.env_state.step_count.dtype) % 3)
+        SPY.clear()
+        st2 = algo.iteration(st, key=jr.key(100 + idx), callback=cb)      # eager: the spying train() sees the concrete rollout buffer
         single = eqx.filter_jit(lambda ss, k: algo.collect_rollout(env, policy, ss, cb, k))
+        env_keys = jr.split(jr.split(jr.key(100 + idx), 3)[0], N)
         for i in range(N):
-            want, _ = single(jax.tree.map(lambda x: x[i], st.step_state), jr.key(7))
+            want, wbuf = single(jax.tree.map(lambda x: x[i], st.step_state), env_keys[i])
             got = jax.tree.map(lambda x: x[i], st2.step_state)
             if not (tree_equal_bits(got.env_state, want.env_state) and tree_equal_bits(got.policy_state, want.policy_state)):
                 ck.violations.append(Violation("impl-violates-property", "C12/onpolicy/iteration-vs-single",
                                                "after iteration() environment %d is not in the state its own single-environment collection reaches" % i,
                                                case={**ck.current_case, "env_index": i}))
                 break
+            if SPY:
+                gbuf = jax.tree.map(lambda x: x[i], SPY[0])
+                diff = [f for f in ("rewards", "dones", "values", "log_probs", "advantages", "returns")
+                        if not np.array_equal(np.asarray(getattr(gbuf, f)), np.asarray(getattr(wbuf, f)))]
+                ck.count("iteration_buffer_rows_compared", T)
+                if diff:
+                    ck.violations.append(Violation(
+                        "impl-violates-property", "C12/onpolicy/iteration-buffer-vs-single",
+                        "the rollout that iteration() hands to train() for environment %d differs from that environment's own single-environment collection "
+                        "from the same key and start state (fields %s): something crossed between parallel environments" % (i, ", ".join(diff)),
+                        case={**ck.current_case, "env_index": i, "start_step_counts": [int(x) for x in np.asarray(st.step_state.env_state.step_count)],
+                              **{f"iteration[{f}]": np.asarray(getattr(gbuf, f)).tolist() for f in diff},
+                              **{f"single[{f}]": np.asarray(getattr(wbuf, f)).tolist() for f in diff}}))
+                    break
+        if not SPY:
+            ck.notes.append("iteration() did not call train() with the rollout buffer: buffer comparison skipped")
         ck.case_seen(("iter", idx, N)); ck.count("iteration_vs_singles")
     ck.current_case = None
 
